@@ -328,6 +328,9 @@ func extractThread(prog *gose.Program, fn *ssa.Function, kind, cores, max int, s
 	if len(res.Decisions) != 0 || len(res.Pending) != 0 {
 		return nil, nil, res, fmt.Errorf("thread extraction (kind %d, cores %d): control flow depends on symbolic data", kind, cores)
 	}
+	// with every mutex traced: keep the locks whose critical section contains an operation
+	// on the traced channel, drop the others (per-object locks taken around bookkeeping)
+	res.SyncTrace = filterLocks(res.SyncTrace)
 	var ops []int
 	for _, ev := range res.SyncTrace {
 		o, err := opCode(ev)
@@ -820,4 +823,30 @@ func (cr *checkRun) runTCInduction(which string, N, M int, prog map[[2]int][]int
 			cr.problems = append(cr.problems, fmt.Sprintf("tc %s (N=%d): the invariant does not exclude a bad state; only the bounded composition can confirm or refute it", qq.name, N))
 		}
 	}
+}
+
+// filterLocks drops L:/U: events of mutexes that never enclose a channel operation.
+func filterLocks(tr []string) []string {
+	keep := map[string]bool{}
+	held := map[string]bool{}
+	for _, ev := range tr {
+		switch {
+		case strings.HasPrefix(ev, "L:"):
+			held[ev[2:]] = true
+		case strings.HasPrefix(ev, "U:"):
+			delete(held, ev[2:])
+		case ev == "S" || ev == "R" || ev == "TS" || ev == "TR" || strings.HasPrefix(ev, "S:") || strings.HasPrefix(ev, "R:"):
+			for n := range held {
+				keep[n] = true
+			}
+		}
+	}
+	var out []string
+	for _, ev := range tr {
+		if (strings.HasPrefix(ev, "L:") || strings.HasPrefix(ev, "U:")) && !keep[ev[2:]] {
+			continue
+		}
+		out = append(out, ev)
+	}
+	return out
 }
